@@ -16,7 +16,8 @@ RULE = ("A Distribution or Flow (StandardNormal, DiagonalNormal, ConditionalDiag
         "sample_and_log_prob -> matching [rows, n, *event] / [rows, n]; batched draws are distinct (not one batch replicated) and, "
         "with a row-identifying conditional base (mean 100*i, sigma 0.01), block i stays block i; batched StandardNormal "
         "samples pass a KS test; context row mismatch -> ValueError; num_samples / batch_size in {0, -3, 2.0, '3', None, [2]} -> "
-        "TypeError. Non-trivial: context and batch_size both given, or an error-path case. Distinct = distinct case JSON.")
+        "TypeError. MADEMoG with >= 2 context rows: block i of a batched 3000-draw sample follows the mixture conditioned on row i (KS, p=1e-9). "
+        "Non-trivial: context and batch_size both given, or an error-path case. Distinct = distinct case JSON.")
 ASSUMPTIONS = ["True/False are not generated as counts (bool is an int subclass; the predicate documents nothing else)",
                "DiagonalNormal offers no sampling (NotImplementedError is its documented behaviour)"]
 EXPLANATION = "generated"
@@ -240,6 +241,30 @@ def run_case(case):
             if float((s - centers).abs().max()) > 1.0 or float((s2 - centers).abs().max()) > 1.0:
                 res.fail("block_identity", site, "block i of sample(n, context) is not drawn under context row i (row-identifying base, batch_size=%r)" % (bs,), bs=case["bs"])
                 return res
+        if kind == "mademog" and ctx is not None and rows >= 2:
+            # block i of the batched sample must follow the mixture conditioned on context row i (first coordinate: explicit mixture)
+            N = 3000
+            cs = ctx * 3.0
+            bsz = [None, 7, 64, 999, 3001][case["seed"] % 5]
+            with torch.no_grad():
+                big = obj.sample(N, cs, batch_size=bsz) if bsz is not None else obj.sample(N, cs)
+            if list(big.shape) != [rows, N] + ev:
+                res.fail("sample_shape", site, "large batched sample shape %s" % list(big.shape))
+                return res
+            thr = ks_threshold(N)
+            res.labels.append("mog_rows_ks")
+            for i in range(rows):
+                with torch.no_grad():
+                    o = obj._made(torch.zeros(1, ev[0]), cs[i:i + 1]).reshape(1, ev[0], 2, 3).double()
+                w = torch.softmax(o[0, 0, :, 0], -1).numpy()
+                mu = o[0, 0, :, 1].numpy()
+                sd = (torch.nn.functional.softplus(o[0, 0, :, 2]) + obj._made.epsilon).numpy()
+                d = ks_statistic(big[i, :, 0].double().numpy(), lambda t: sum(wk * norm_cdf((t - mk) / sk) for wk, mk, sk in zip(w, mu, sd)))
+                res.see_ratio(d, thr)
+                if d > thr:
+                    res.fail("block_identity", site, "MADEMoG: block %d of sample(n, context, batch_size=%r) does not follow the mixture conditioned on context "
+                             "row %d (KS %.4f > %.4f, %d rows)" % (i, bsz, i, d, thr, rows), bs=str(bsz))
+                    return res
         if what == "ks" and kind == "standard" and ctx is None:
             with torch.no_grad():
                 big = obj.sample(4000, None, batch_size=[7, 64, 999, 4001][case["seed"] % 4])
